@@ -60,10 +60,16 @@ Proof.
 Qed.
 
 Lemma multi_oracle_sound srcs out e ca :
-  multi_oracle srcs out e ca = true <-> multi_spec srcs out e ca.
+  multi_oracle srcs out e ca = true <-> (multi_dom srcs = true -> multi_spec srcs out e ca).
 Proof.
   unfold multi_oracle, multi_spec.
-  rewrite !andb_true_iff, eqb_listN_spec, err_eqb_spec, eqb_listnat_spec. tauto.
+  rewrite orb_true_iff, negb_true_iff, !andb_true_iff, eqb_listN_spec, err_eqb_spec,
+    eqb_listnat_spec.
+  destruct (multi_dom srcs); split; intro H.
+  - intros _. destruct H as [H|H]; [discriminate H | tauto].
+  - right. specialize (H eq_refl). tauto.
+  - intro Hd. discriminate Hd.
+  - left. reflexivity.
 Qed.
 
 Lemma tee_oracle_sound s b out e w sc wc :
@@ -93,10 +99,15 @@ Proof.
 Qed.
 
 Lemma multi_stop_oracle_sound srcs out ca :
-  multi_stop_oracle srcs out ca = true <-> multi_stop_spec srcs out ca.
+  multi_stop_oracle srcs out ca = true <-> (multi_dom srcs = true -> multi_stop_spec srcs out ca).
 Proof.
   unfold multi_stop_oracle, multi_stop_spec.
-  rewrite andb_true_iff, prefixb_spec, eqb_listnat_spec. tauto.
+  rewrite orb_true_iff, negb_true_iff, andb_true_iff, prefixb_spec, eqb_listnat_spec.
+  destruct (multi_dom srcs); split; intro H.
+  - intros _. destruct H as [H|H]; [discriminate H | tauto].
+  - right. specialize (H eq_refl). tauto.
+  - intro Hd. discriminate Hd.
+  - left. reflexivity.
 Qed.
 
 Lemma tee_stop_oracle_sound s out w sc wc :
@@ -154,7 +165,7 @@ Section Limit.
       { apply (f_equal (@length N)) in Hlast. rewrite app_length in Hlast.
         cbn [length] in Hlast. rewrite app_length. lia. }
       assert (Hd0 : data_of s0 =
-                    (acc ++ removelast bs0) ++ (last bs0 0%N :: data_of (script src'))).
+                    (acc ++ removelast bs0) ++ (last bs0 0%N :: data_after e0 src')).
       { rewrite <- Hdata, Hd. rewrite Hlast at 1. rewrite <- !app_assoc. reflexivity. }
       assert (Hlong : (Z.of_nat (length (data_of s0)) > n0)%Z).
       { rewrite Hd0, app_length. cbn [length]. lia. }
@@ -163,7 +174,7 @@ Section Limit.
       rewrite Hd0. symmetry. apply firstn_exact. exact Hlen'.
     - (* within the limit *)
       injection Hr as <- <- <-.
-      assert (Hfin : data_of (script src') = [] -> end_of (script (lsrc l)) = e0 ->
+      assert (Hfin : data_after e0 src' = [] -> end_of (script (lsrc l)) = e0 ->
                      lim_post (acc ++ bs0) e0
                        {| lN := lN l - Z.of_nat (length bs0); lclosed := false; lsrc := src' |}).
       { intros He1 He2.
@@ -177,13 +188,13 @@ Section Limit.
       destruct e0; try contradiction.
       + (* ENil *)
         destruct He as [He1 He2]. cbn [lsrc]. split; [|exact He2].
-        unfold lim_inv. cbn [lN lclosed lsrc].
+        unfold lim_inv. cbn [lN lclosed lsrc]. cbn [data_after] in Hd.
         rewrite <- app_assoc, <- Hd, app_length.
         repeat split; try assumption; try lia; congruence.
       + (* EEOF *)
         destruct He as [He1 He2]. apply Hfin; assumption.
       + (* EFail k *)
-        destruct He as [He1 He2]. apply Hfin; assumption.
+        apply Hfin; [reflexivity | exact He].
   Qed.
 
   (* whenever the invariant holds, a Close now leaves the source closed once, and what was
@@ -369,6 +380,17 @@ Proof.
   fold (gone_counts (map close_src (mreaders m))). rewrite (gone_counts_close _ H). reflexivity.
 Qed.
 
+(* no remaining source ends with http.ErrBodyReadAfterClose *)
+Definition indom (rs : list src) : Prop :=
+  Forall (fun s => body_closed_end (script (sreader s)) = false) rs.
+
+Lemma indom_new srcs : multi_dom srcs = true -> indom (map src_new srcs).
+Proof.
+  unfold multi_dom, indom. intro H. rewrite forallb_forall in H.
+  apply Forall_forall. intros s Hin. apply in_map_iff in Hin. destruct Hin as (sc & <- & Hsc).
+  specialize (H sc Hsc). apply negb_true_iff in H. exact H.
+Qed.
+
 Section Multi.
   (* the stream still owed at the start, and the close counts due after Close *)
   Variables (E : list N) (Er : err) (X : list nat).
@@ -377,7 +399,7 @@ Section Multi.
     gone_counts gone ++ closes_due rs = X /\ unclosed rs.
 
   Definition multi_inv' (rs gone : list src) (acc : list N) : Prop :=
-    acc ++ fst (expect_rs rs) = E /\ snd (expect_rs rs) = Er /\ multi_cl rs gone.
+    acc ++ fst (expect_rs rs) = E /\ snd (expect_rs rs) = Er /\ multi_cl rs gone /\ indom rs.
 
   Definition multi_fin (out : list N) (e : err) (m : multi) : Prop :=
     out = E /\ e = Er /\ multi_cl (mreaders m) (mgone m).
@@ -394,18 +416,22 @@ Section Multi.
     intros Hw. induction rs as [|r rest IH]; intros gone acc bs e m' Hinv Hr.
     - (* no reader left *)
       cbn [multi_read_loop] in Hr. injection Hr as <- <- <-.
-      destruct Hinv as (HE & HEr & Hcl). cbn [expect_rs fst snd] in HE, HEr.
+      destruct Hinv as (HE & HEr & Hcl & _). cbn [expect_rs fst snd] in HE, HEr.
       unfold multi_fin. cbn [mreaders mgone]. split; [exact HE|]. split; [exact HEr | exact Hcl].
     - cbn [multi_read_loop] in Hr.
       destruct (read want (sreader r)) as [[bs0 e0] rd'] eqn:Hrd.
       destruct (read_step _ _ _ _ _ Hw Hrd) as (Hd & Hc & Hlen & He).
-      destruct Hinv as (HE & HEr & HX & Hun).
+      destruct Hinv as (HE & HEr & (HX & Hun) & Hdom).
       pose proof (Forall_inv Hun) as Hr0. pose proof (Forall_inv_tail Hun) as Hrest.
-      cbn beta in Hr0.
+      pose proof (Forall_inv Hdom) as Hdom0. pose proof (Forall_inv_tail Hdom) as Hdomrest.
+      cbn beta in Hr0, Hdom0. fold (indom rest) in Hdomrest.
       cbn [expect_rs] in HE, HEr. cbn [closes_due map] in HX. fold (closes_due rest) in HX.
       destruct e0; try contradiction.
       + (* ENil: the head source made progress *)
-        injection Hr as <- <- <-. destruct He as [He1 He2].
+        injection Hr as <- <- <-. destruct He as [He1 He2]. cbn [data_after] in Hd.
+        assert (Hdom' : indom ({| sreader := rd'; closable := closable r |} :: rest)).
+        { constructor; [|exact Hdomrest]. cbn [sreader]. unfold body_closed_end.
+          rewrite He1. exact Hdom0. }
         cbn [mreaders mgone]. split.
         * unfold multi_inv', multi_cl. cbn [expect_rs sreader closes_due map closable].
           fold (closes_due rest). rewrite He1.
@@ -418,7 +444,7 @@ Section Multi.
         * cbn [fuel_rs fold_right sreader]. fold (fuel_rs rest). lia.
       + (* EEOF: the head source is exhausted and dropped *)
         destruct He as [He1 He2]. rewrite He2 in HE, HEr. cbn [fst snd] in HE, HEr.
-        rewrite Hd, He1, app_nil_r in HE.
+        cbn [data_after] in Hd. rewrite Hd, He1, app_nil_r in HE.
         set (r'' := close_src {| sreader := rd'; closable := closable r |}) in Hr.
         assert (Hc'' : gone_counts (gone ++ [r'']) ++ closes_due rest = X).
         { unfold gone_counts. rewrite map_app. cbn [map]. fold (gone_counts gone).
@@ -443,8 +469,13 @@ Section Multi.
              ++ pose proof (script_fuel_pos (script (sreader r))) as Hpos.
                 cbn [fuel_rs fold_right]. cbn [fuel_rs fold_right] in Hpos. lia.
       + (* EFail k: the head source failed; it stays at the head *)
-        injection Hr as <- <- <-. destruct He as (He1 & He2).
-        rewrite He2 in HE, HEr. cbn [fst snd] in HE, HEr. rewrite Hd, He1, app_nil_r in HE.
+        rename He into He2.
+        assert (Hk : is_body_closed k = false).
+        { unfold body_closed_end in Hdom0. rewrite He2 in Hdom0. exact Hdom0. }
+        rewrite Hk in Hr.
+        injection Hr as <- <- <-.
+        rewrite He2 in HE, HEr. cbn [fst snd] in HE, HEr.
+        cbn [data_after] in Hd. rewrite Hd, app_nil_r in HE.
         unfold multi_fin, multi_cl. cbn [mreaders mgone closes_due map closable].
         fold (closes_due rest).
         repeat split; try assumption. constructor; [cbn [sreader]; lia | exact Hrest].
@@ -475,20 +506,21 @@ Section Multi.
   Qed.
 End Multi.
 
-Lemma multi_inv_new srcs :
+Lemma multi_inv_new srcs : multi_dom srcs = true ->
   multi_inv (fst (multi_expect srcs)) (snd (multi_expect srcs)) (expected_closes srcs)
             (multi_new srcs) [].
 Proof.
+  intro Hdom.
   unfold multi_inv, multi_inv', multi_cl, multi_new. cbn [mreaders mgone app gone_counts map].
   rewrite expect_rs_new, closes_due_new.
-  repeat split; try reflexivity. apply unclosed_new.
+  repeat split; try reflexivity; [apply unclosed_new | apply indom_new; exact Hdom].
 Qed.
 
-Lemma multi_read_spec : forall v srcs c k, consumer_pos c -> 1 <= k ->
+Lemma multi_read_spec : forall v srcs c k, consumer_pos c -> 1 <= k -> multi_dom srcs = true ->
   exists out e cb ca, multi_run v srcs (ViaRead c) None k = (out, Some e, cb, ca) /\
                       multi_spec srcs out e ca.
 Proof.
-  intros v srcs c k Hc Hk. unfold multi_run, fuel_of.
+  intros v srcs c k Hc Hk Hdom. unfold multi_run, fuel_of.
   destruct (consume_rule multi_read
               (multi_inv (fst (multi_expect srcs)) (snd (multi_expect srcs)) (expected_closes srcs))
               (fun m => fuel_rs (mreaders m))
@@ -497,7 +529,7 @@ Proof.
                  multi_read_step _ _ _ want m acc bs e m')
               (multi_fuel (multi_new srcs)) c (multi_new srcs) [] Hc)
     as (out & e & m1 & Hrun & Hpost).
-  - apply multi_inv_new.
+  - apply multi_inv_new; exact Hdom.
   - unfold multi_fuel, fuel_rs. lia.
   - rewrite Hrun. destruct Hpost as (H1 & H2 & H3).
     exists out, e. eexists. eexists. split; [reflexivity|].
@@ -507,13 +539,14 @@ Qed.
 
 (* the consumer stops after at most [fuel] Read calls and then calls Close *)
 Lemma multi_read_stop_spec : forall v srcs c fuel k, consumer_pos c -> 1 <= k ->
+  multi_dom srcs = true ->
   exists out eo cb ca, multi_run v srcs (ViaRead c) (Some fuel) k = (out, eo, cb, ca) /\
     match eo with
     | Some e => multi_spec srcs out e ca
     | None => multi_stop_spec srcs out ca
     end.
 Proof.
-  intros v srcs c fuel k Hc Hk. unfold multi_run, fuel_of.
+  intros v srcs c fuel k Hc Hk Hdom. unfold multi_run, fuel_of.
   set (E := fst (multi_expect srcs)). set (Er := snd (multi_expect srcs)).
   set (X := expected_closes srcs).
   destruct (consume_upto_rule multi_read (multi_inv E Er X) (multi_post E Er X))
@@ -523,12 +556,12 @@ Proof.
     pose proof (multi_read_step E Er X want m acc bs e m' Hw Hinv Hr) as H.
     destruct e; try exact H. exact (proj1 H).
   - exact Hc.
-  - apply multi_inv_new.
+  - apply multi_inv_new; exact Hdom.
   - rewrite Hrun. exists out, eo. eexists. eexists. split; [reflexivity|].
     rewrite (iter_idem multi_close multi_close_idem k _ Hk).
     destruct eo as [e|].
     + destruct Hres as (H1 & H2 & H3). unfold multi_spec. repeat split; assumption.
-    + destruct Hres as (HE & _ & HX & Hun). unfold multi_stop_spec. split.
+    + destruct Hres as (HE & _ & (HX & Hun) & _). unfold multi_stop_spec. split.
       * exists (fst (expect_rs (mreaders m1))). symmetry. exact HE.
       * rewrite (close_counts_multi_close _ Hun). exact HX.
 Qed.
@@ -557,12 +590,12 @@ Proof.
   - intros want r1 acc bs e r2 Hw (Hd & Heof & Hcl) Hrd.
     destruct (read_step _ _ _ _ _ Hw Hrd) as (Hd' & Hc' & _ & He).
     destruct e; try contradiction.
-    + destruct He as [He1 He2]. rewrite <- app_assoc, <- Hd'.
+    + destruct He as [He1 He2]. cbn [data_after] in Hd'. rewrite <- app_assoc, <- Hd'.
       repeat split; try assumption; congruence.
-    + destruct He as [He1 He2]. rewrite <- Heof, He2.
+    + destruct He as [He1 He2]. rewrite <- Heof, He2. cbn [data_after] in Hd'.
       rewrite <- Hd, Hd', He1, app_nil_r. repeat split; congruence.
-    + destruct He as [He1 He2]. rewrite <- Heof, He2.
-      rewrite <- Hd, Hd', He1, app_nil_r. repeat split; congruence.
+    + rewrite <- Heof, He. cbn [data_after] in Hd'.
+      rewrite <- Hd, Hd', app_nil_r. repeat split; congruence.
   - exact Hcpos.
   - repeat split; reflexivity.
   - lia.
@@ -667,7 +700,7 @@ Section Tee.
       unfold tee_post, tee_spec, tee_close. cbn [topen tr tw wbuf wcloses close_reader closes].
       repeat split; try assumption; lia. }
     (* the source ended (EOF or failure) on this read, which delivered [bs0] *)
-    assert (Hend : forall e1, e1 <> EWriter -> data_of (script r') = [] ->
+    assert (Hend : forall e1, e1 <> EWriter -> data_after e0 r' = [] ->
               end_of (script (tr t)) = e1 ->
               acc ++ bs0 = data_of s0 /\ e1 = end_of s0).
     { intros e1 _ He1 He2. split; [|congruence].
@@ -676,7 +709,7 @@ Section Tee.
     - (* empty read: nothing is written *)
       injection Hr as <- <- <-. rewrite app_nil_r. cbn [app] in Hd.
       destruct e0; try contradiction.
-      + destruct He as [He1 He2]. cbn [tr]. split; [|exact He2].
+      + destruct He as [He1 He2]. cbn [tr]. split; [|exact He2]. cbn [data_after] in Hd.
         unfold tee_inv. cbn [tr tw topen teof].
         repeat split; try assumption; congruence.
       + destruct He as [He1 He2].
@@ -685,8 +718,7 @@ Section Tee.
         apply Hfin; try assumption.
         * exists []. rewrite app_nil_r. symmetry. exact Hout.
         * split; assumption.
-      + destruct He as [He1 He2].
-        destruct (Hend (EFail k) ltac:(discriminate) He1 He2) as [Hout Hee].
+      + destruct (Hend (EFail k) ltac:(discriminate) eq_refl He) as [Hout Hee].
         rewrite app_nil_r in Hout.
         apply Hfin; try assumption.
         * exists []. rewrite app_nil_r. symmetry. exact Hout.
@@ -718,7 +750,7 @@ Section Tee.
                  end).
       { intros k Hk Hbk. injection Hk as <- <- <-.
         destruct e0; try contradiction.
-        - destruct He as [He1 He2]. cbn [tr]. split; [|exact He2].
+        - destruct He as [He1 He2]. cbn [tr]. split; [|exact He2]. cbn [data_after] in Hd.
           unfold tee_inv. cbn [tr tw topen teof wbuf wbudget wcloses].
           rewrite <- app_assoc, <- Hd.
           repeat split; try assumption; congruence.
@@ -728,8 +760,7 @@ Section Tee.
           + congruence.
           + exists []. rewrite app_nil_r. symmetry. exact Hout.
           + split; assumption.
-        - destruct He as [He1 He2].
-          destruct (Hend (EFail k0) ltac:(discriminate) He1 He2) as [Hout Hee].
+        - destruct (Hend (EFail k0) ltac:(discriminate) eq_refl He) as [Hout Hee].
           apply Hfin; cbn [wbuf wcloses]; try assumption.
           + congruence.
           + exists []. rewrite app_nil_r. symmetry. exact Hout.
@@ -738,7 +769,7 @@ Section Tee.
       + (* the writer refuses: no byte delivered, no byte written *)
         injection Hr' as <- <- <-. rewrite app_nil_r.
         apply Hfin; try assumption.
-        * exists (bs1 ++ data_of (script r')). rewrite <- Hdata, Hd. reflexivity.
+        * exists (bs1 ++ data_after e0 r'). rewrite <- Hdata, Hd. reflexivity.
         * intro Hnone. specialize (Hbud Hnone). congruence.
       + apply (Hok (Some k) Hr'). intro Hnone. specialize (Hbud Hnone). congruence.
       + apply (Hok None Hr'). reflexivity.
@@ -834,6 +865,24 @@ Example limit_within_datafail :
   = ([1; 2; 3]%N, Some (EFail FWrapEOF), 0, 1).
 Proof. vm_compute. reflexivity. Qed.
 
+(* a transient failure delivered with data: the stream ends THERE with that error, although the
+   source would have gone on *)
+Example limit_transient :
+  limit_run Fixed 9 [Data [1; 2]%N; DataErr [3]%N FCtxDeadline; Data [4]%N] ex_consumer None 1
+  = ([1; 2; 3]%N, Some (EFail FCtxDeadline), 0, 1).
+Proof. vm_compute. reflexivity. Qed.
+
+Example multi_transient :
+  multi_run Fixed [([DataErr [1]%N FNetClosed; Data [2]%N], true); ([Data [3]%N], true)]
+            (ViaRead ex_consumer) None 1
+  = ([1]%N, Some (EFail FNetClosed), [0; 0], [1; 1]).
+Proof. vm_compute. reflexivity. Qed.
+
+Example tee_transient :
+  tee_run [DataErr [1; 2]%N FUnexpEOF; Data [3]%N] None ex_consumer None 1
+  = ([1; 2]%N, Some (EFail FUnexpEOF), [1; 2]%N, 1, 1).
+Proof. vm_compute. reflexivity. Qed.
+
 (* the consumer stops after two Read calls, then Close *)
 Example limit_stopped :
   limit_run Fixed 5 [Data [1; 2]%N; Zero; DataEOF [3]%N] ex_consumer (Some 2) 1
@@ -853,6 +902,32 @@ Example multi_read_wrapped_eof :
             (ViaRead ex_consumer) None 1
   = ([1; 2]%N, Some (EFail FWrapEOF), [1; 0; 0], [1; 1; 1]).
 Proof. vm_compute. reflexivity. Qed.
+
+(* so is a source torn down under the reader (io.ErrClosedPipe, os.ErrClosed, ... bare or wrapped) *)
+Example multi_read_closed_pipe :
+  multi_run Fixed [([Data [1]%N; Fail FWrapOsClosed], true); ([Data [2]%N], true)]
+            (ViaRead ex_consumer) None 1
+  = ([1]%N, Some (EFail FWrapOsClosed), [0; 0], [1; 1]).
+Proof. vm_compute. reflexivity. Qed.
+
+(* the one identity the code knows, outside the spec's domain: on the Read path the source is
+   dropped without being closed and the stream goes on; WriteTo reports the error *)
+Example multi_read_body_closed :
+  multi_run Fixed [([Data [1]%N; Fail FBodyClosed], true); ([Data [2]%N], true)]
+            (ViaRead ex_consumer) None 1
+  = ([1; 2]%N, Some EEOF, [0; 1], [0; 1]).
+Proof. vm_compute. reflexivity. Qed.
+
+Example multi_writeto_body_closed :
+  multi_run Fixed [([Data [1]%N; Fail FBodyClosed], true); ([Data [2]%N], true)]
+            (ViaWriteTo ex_consumer) None 1
+  = ([1]%N, Some (EFail FBodyClosed), [0; 0], [1; 1]).
+Proof. vm_compute. reflexivity. Qed.
+
+Example multi_dom_ex :
+  multi_dom [([Data [1]%N; Fail FWrapOsClosed], true); ([Data [2]%N], true)] = true /\
+  multi_dom [([Data [1]%N; Fail FBodyClosed], true); ([Data [2]%N], true)] = false.
+Proof. vm_compute. split; reflexivity. Qed.
 
 (* the consumer stops after one Read call with three sources unfinished; Close closes them all *)
 Example multi_read_stopped :
